@@ -83,6 +83,8 @@ def generate(arg, repo, meta, log, ctx):
     kind = parts[0]
     if kind == "world_r":
         return gen_world_r(parts[1:], repo, ctx, log)
+    if kind == "bon_builder":
+        return gen_bon_builder(parts[1], parts[2], repo, log)
     raise core.Undecided("unknown generator %r" % kind)
 
 def gen_world_r(files, repo, ctx, log):
@@ -128,5 +130,71 @@ def gen_world_r(files, repo, ctx, log):
     names.append("lit_values")
     out = [l for l in out if not l.startswith("pub broadcast axiom fn lit_v_")]
     out.append("pub broadcast group all { %s }" % ", ".join(names))
+    out.append("}")
+    return out
+
+
+def gen_bon_builder(path, sname, repo, log):
+    """R10: the `bon` builder of a `#[derive(Builder)]` struct, generated from the struct's own text in /repo:
+    one field per struct field, initial value = the `#[builder(default = ...)]` attribute (None for Option fields),
+    setters `field(v)` (and `maybe_field(Option<T>)` for Option fields), `build()` copies the fields.
+    ASSUMED contract on the external crate `bon` (it is not verified here)."""
+    from .lexer import match_close
+    toks = core.read_tokens(repo, path)
+    (s, kw, e) = core.find_item(toks, 0, len(toks), "struct " + sname)
+    bo, bc = core.body_range(toks, kw, e)
+    fields = []
+    i = bo + 1
+    default = None
+    while i < bc:
+        t = toks[i]
+        if t.kind == "punct" and t.text == "#":
+            c = match_close(toks, i + 1)
+            inner = toks[i + 2:c]
+            txt = " ".join(u.text for u in inner)
+            m = re.match(r"builder \( default = (.*?)( , into)? \)$", txt)
+            if m:
+                default = m.group(1).replace(" :: ", "::").replace(" ", "")
+            i = c + 1; continue
+        if t.kind == "id" and t.text == "pub":
+            i += 1; continue
+        if t.kind == "id" and i + 1 < bc and toks[i + 1].text == ":":
+            name = t.text
+            j = i + 2; d = 0; ty = []
+            while j < bc and not (d == 0 and toks[j].text == ","):
+                if toks[j].text == "<": d += 1
+                elif toks[j].text == ">": d -= 1
+                ty.append(toks[j].text); j += 1
+            tys = "".join(ty).replace(",", ", ")
+            fields.append((name, tys, default, t.line))
+            default = None
+            i = j + 1; continue
+        i += 1
+    out = []
+    b = sname + "Builder"
+    out.append("pub struct %s { %s }" % (b, ", ".join("pub %s: %s" % (n, ty) for (n, ty, _, _) in fields)))
+    inits = []
+    ens = []
+    for (n, ty, d, ln) in fields:
+        if d is None:
+            if not ty.startswith("Option<"):
+                raise core.Undecided("builder field %s.%s has no default and is not an Option" % (sname, n))
+            inits.append("%s: None" % n); ens.append("b.%s is None" % n)
+        else:
+            dv = d
+            if ty in ("Tolerance",):
+                dv = "Tolerance::Scalar(%s)" % d
+            inits.append("%s: %s" % (n, dv)); ens.append("b.%s == %s" % (n, dv if not re.match(r"^[0-9.eE_+-]+$", dv) or ty in ("usize", "bool") else dv + "f64"))
+        log.append(("GEN", path, ln, "builder field %s.%s default %s" % (sname, n, d)))
+    out.append("impl %s { #[verifier::external_body] pub fn builder() -> (b: %s) ensures %s { %s { %s } } }" % (sname, b, ", ".join(ens), b, ", ".join(inits)))
+    out.append("impl %s {" % b)
+    for (n, ty, d, ln) in fields:
+        arg = ty[len("Option<"):-1] if ty.startswith("Option<") else ty
+        setv = "Some(v)" if ty.startswith("Option<") else "v"
+        others = ", ".join("r.%s == self.%s" % (m_, m_) for (m_, _, _, _) in fields if m_ != n)
+        out.append("    #[verifier::external_body] pub fn %s(self, v: %s) -> (r: Self) ensures r.%s == %s%s { let mut s = self; s.%s = %s; s }" % (n, arg, n, setv, (", " + others) if others else "", n, setv))
+        if ty.startswith("Option<"):
+            out.append("    #[verifier::external_body] pub fn maybe_%s(self, v: %s) -> (r: Self) ensures r.%s == v%s { let mut s = self; s.%s = v; s }" % (n, ty, n, (", " + others) if others else "", n))
+    out.append("    #[verifier::external_body] pub fn build(self) -> (r: %s) ensures %s { %s { %s } }" % (sname, ", ".join("r.%s == self.%s" % (n, n) for (n, _, _, _) in fields), sname, ", ".join("%s: self.%s" % (n, n) for (n, _, _, _) in fields)))
     out.append("}")
     return out
